@@ -281,18 +281,18 @@ theorem run_vinv {P : Program} : ∀ (evs : List Event) (s s' : St), run P s evs
       simp only [Option.bind] at h
       exact run_vinv es s1 s' h (step_vinv hs hi)
 
-theorem run_append (P : Program) : ∀ (evs1 evs2 : List Event) (s : St),
+theorem run_append_fp (P : Program) : ∀ (evs1 evs2 : List Event) (s : St),
     run P s (evs1 ++ evs2) = (run P s evs1).bind (fun s1 => run P s1 evs2)
   | [], evs2, s => by simp [run]
   | e :: es, evs2, s => by
     simp only [List.cons_append, run]
     cases step P s e with
     | none => rfl
-    | some s1 => simp only [Option.bind]; exact run_append P es evs2 s1
+    | some s1 => simp only [Option.bind]; exact run_append_fp P es evs2 s1
 
 theorem run_append_some {P : Program} {evs1 : List Event} {s s1 : St} (h : run P s evs1 = some s1)
     (evs2 : List Event) : run P s (evs1 ++ evs2) = run P s1 evs2 := by
-  rw [run_append, h]; rfl
+  rw [run_append_fp, h]; rfl
 
 /-- reading facts off an accepted trace (for non-vacuity examples: `h` is closed by kernel evaluation) -/
 theorem run_facts {P : Program} {s0 : St} {evs : List Event} {p : St → Bool}
